@@ -442,16 +442,19 @@ def nontrivial(line, r):
 
 
 def model_cases(rng, tier):
-    n_scen = 220 if tier == "quick" else 2400
+    n_scen = 220 if tier == "quick" else 600
     for k in range(n_scen):
         t, script, idx, sigs = gen_scenario(rng, wf=(rng.random() < 0.7))
         toks = tx_tokens(t)
         for coin in COINS:
             hts = hash_types(rng, tier, wide=True)
+            # thorough: all 256 hash types, 64 per driver line (keeps one line cheap)
+            parts = [hts[i:i + 64] for i in range(0, len(hts), 64)]
             for entry, fn in (("L", "sighash"), ("S", "sighash_segwit")):
-                yield Case("%s %s %s %s i%x %s" % (fn, coin, toks, arg(script), idx, hts_arg(hts)),
-                           (lambda coin=coin, t=t, entry=entry, script=script, idx=idx, hts=hts:
-                            impl_list(coin, t, entry, script, idx, hts)))
+                for hp in parts:
+                    yield Case("%s %s %s %s i%x %s" % (fn, coin, toks, arg(script), idx, hts_arg(hp)),
+                               (lambda coin=coin, t=t, entry=entry, script=script, idx=idx, hp=hp:
+                                impl_list(coin, t, entry, script, idx, hp)))
             if coin in ("BTC", "GRS", "BTG"):
                 h2 = hts[:12] + hts[-3:]
                 yield Case("segwit_preimage %s %s %s i%x %s" % (coin, toks, arg(script), idx, hts_arg(h2)),
@@ -769,16 +772,21 @@ def _ecdsa_ok(pub, digest, sig_der):
 
 
 # ================================================================================================
-def _wf_cases(rng, tier):
-    n = 120 if tier == "quick" else 1500
-    for _ in range(n):
-        yield gen_scenario(rng, wf=True)
-
-
 def prop_cases(rng, tier, use_driver=True):
+    """lazy: the work is cut into chunks, each with its own batch run of the extracted specification"""
+    n_scen = 120 if tier == "quick" else 900
+    n_fad = 1500 if tier == "quick" else 30000
+    chunks = 4 if tier == "quick" else 60
+    for c in range(chunks):
+        last = (c == chunks - 1)
+        for pc in _prop_chunk(rng, tier, use_driver, n_scen // chunks, n_fad // chunks, extras=(c == 0)):
+            yield pc
+
+
+def _prop_chunk(rng, tier, use_driver, n_scen, n_fad, extras):
     spec = Spec()
-    plan = []     # (name, inp, make_thunk(spec) )
-    for t, script, idx, sigs in _wf_cases(rng, tier):
+    plan = []     # (name, inp, thunk)
+    for t, script, idx, sigs in (gen_scenario(rng, wf=True) for _ in range(n_scen)):
         toks = tx_tokens(t)
         hts = hash_types(rng, tier)
         jin = {"tx": tx_json(t), "script": script.hex(), "idx": idx, "hts": hts, "sigs": [s.hex() for s in sigs]}
@@ -825,7 +833,7 @@ def prop_cases(rng, tier, use_driver=True):
         nm_h = hts[:6] + hts[-2:]
         plan.append(("nonmutation", dict(jin, coin=coin, hts=nm_h),
                      (lambda coin=coin, t=t, script=script, idx=idx, nm_h=nm_h, sigs=sigs: chk_nonmutation(coin, t, script, idx, nm_h, sigs))))
-    # refusal for all 256 hash types on one scenario per run
+    # refusal for all 256 hash types on one scenario per chunk
     t, script, idx, sigs = gen_scenario(rng, wf=True)
     allh = list(range(256))
     amount = t["uns"][idx][0]
@@ -839,7 +847,6 @@ def prop_cases(rng, tier, use_driver=True):
                                   [("REFUSE" if p is None else int.from_bytes(dsha(p), "big")) for p in parse_bytes_list(spec.get(k))],
                                   "forkid-digest"))))
     # FindAndDelete
-    n_fad = 1500 if tier == "quick" else 30000
     for k in range(n_fad):
         sigs = [_sig_blob(rng) for _ in range(rng.choice([1, 1, 2, 3]))]
         script = gen_script(rng, sigs, 0.25)
@@ -859,14 +866,14 @@ def prop_cases(rng, tier, use_driver=True):
             plan.append(("script_code_vs_spec", {"script": script.hex(), "begin": begin, "sigs": [s.hex() for s in sigs]},
                          (lambda script=script, begin=begin, sigs=sigs, kc=kc:
                           chk_script_code(script, begin, sigs, bytes.fromhex(spec.get(kc)[1:])))))
-    for o in list(range(1, 17)) + [0x81, 0, 0x11, 0x80]:
+    for o in (list(range(1, 17)) + [0x81, 0, 0x11, 0x80] if extras else []):
         sg = bytes([o])
         script = bytes([0x50 + (o & 15), 0x4F, 0x01, o, 0xAC])
         kb = spec.ask("spec_script_code_base %s [%s]" % (arg(script), arg(sg)), (lambda sg=sg, script=script: canon(r_script_code_base(script, [sg]))))
         plan.append(("delsig_vs_spec", {"script": script.hex(), "sig": sg.hex()},
                      (lambda script=script, sg=sg, kb=kb: chk_delsig(script, sg, bytes.fromhex(spec.get(kb)[1:])))))
     # validation of the SPEC: BIP143 examples, signatures of Core's tx_valid.json
-    vec = harvest_bip143()
+    vec = harvest_bip143() if extras else []
     for name, t, script, idx, amount, ht, exp in vec:
         k = spec.ask("spec_bip143 d %s %s i%x i%x i%x" % (tx_tokens(t), arg(script), idx, amount, ht),
                      (lambda t=t, script=script, idx=idx, amount=amount, ht=ht: canon(r_bip143(dsha, script, t, idx, amount, ht))))
@@ -876,10 +883,11 @@ def prop_cases(rng, tier, use_driver=True):
     e = BIP143_EX1
     k = spec.ask("spec_bip143 d %s %s i%x i%x i%x" % (tx_tokens(e["t"]), arg(e["script"]), e["idx"], e["amount"], e["ht"]),
                  (lambda e=e: canon(r_bip143(dsha, e["script"], e["t"], e["idx"], e["amount"], e["ht"]))))
-    plan.append(("spec_bip143_vector", {"vector": "BIP143 example 1 (built in), %d harvested from tests/btc/segwit_test.py" % len(vec)},
+    if extras:
+      plan.append(("spec_bip143_vector", {"vector": "BIP143 example 1 (built in), %d harvested from tests/btc/segwit_test.py" % len(vec)},
                  (lambda k=k, e=e: None if dsha(bytes.fromhex(spec.get(k)[1:])).hex() == e["sighash"] else
                   {"kind": "spec-vector", "spec_digest": dsha(bytes.fromhex(spec.get(k)[1:])).hex(), "published": e["sighash"]})))
-    sigs_valid = tx_valid_signatures()
+    sigs_valid = tx_valid_signatures() if extras else []
     for t, kind, sc, idx, amount, sg, pub in sigs_valid:
         if not sg:
             continue
